@@ -55,7 +55,14 @@ def strip(obs):
 def scenario(args):
     base, seed, idx, opts = args
     r = C.Rng(seed).fork(f"c14-{idx}")
-    script = hist.gen_script(r, odd=False)
+    if opts.get("directed"):
+        script = hist.gen_directed(r, opts["directed"])
+    elif opts.get("focus"):
+        # many interleaved edits of two files inside ONE commit round: this is where redundant / partial checkpoint
+        # schedules can differ (stale snapshots, A-B-A states, which entry of a file is the newest)
+        script = hist.gen_script(r, rounds=(1, 1), max_edits=11, names=["f.txt", "g.txt", "h.txt"], odd=False)
+    else:
+        script = hist.gen_script(r, odd=False)
     out = {"idx": idx, "steps": hist.descr(script), "failures": [], "ties": 0, "tie_fail": [], "variants": []}
     runs = {}
     names = ["baseline"] + opts["variants"]
@@ -90,6 +97,13 @@ def run(ctx):
     for i in range(n):
         vs = list(VARIANTS) if ctx.tier == "thorough" else r.shuffle(list(VARIANTS))[:4]
         items.append((ctx.scratch, ctx.seed, i, {"variants": vs, "tie": ctx.model_ok}))
+    n_focus = 30 if ctx.tier == "quick" else 600
+    for i in range(n_focus):
+        items.append((ctx.scratch, ctx.seed, 100000 + i, {"variants": list(VARIANTS), "tie": False, "focus": True}))
+    n_dir = 8 if ctx.tier == "quick" else 120
+    for pi, pat in enumerate(hist.DIRECTED):
+        for i in range(n_dir):
+            items.append((ctx.scratch, ctx.seed, 200000 + 1000 * pi + i, {"variants": list(VARIANTS), "tie": False, "directed": pat}))
     res = C.parallel_map(scenario, items)
     violations, obligations, n_tie, tie_bad, hist_v = [], [], 0, [], {}
     distinct = set()
